@@ -40,13 +40,37 @@ CONSTANTS
   MaxOps = %(ops)d
   Devs = {%(devs)s}
   Gen = %(gen)s
+  Wide = %(wide)s
 %(tail)s
 """
-KDEVS = ["StaleRecordTail", "SubdomainD", "KeepOldRecord"]
+KDEVS = ["StaleRecordTail", "SubdomainD", "KeepOldRecord", "SharedRecordFile"]
+
+# Harness-only data dimensions of a key history (DkimKeys.tla does not depend on them: in the design every key
+# has a record file of its own whatever the files are called): the spelling of the key_path template inside the
+# model's naming class cfg.tpl, the spelling of the domain names (0: unrelated names, 1: names that differ only
+# in the last label, 2: one name is a prefix of the other) and a second modify.dkim instance with another
+# selector that keeps its keys in the same directory (only with templates that name the selector).
+SPELL = {"key": ["{domain}.key", "{domain}_{selector}.key", "{selector}/{domain}.key", "{selector}.{domain}.key"],
+         "bare": ["{domain}", "{domain}.{selector}", "{domain}.pem", "{selector}.{domain}", "{domain}/{selector}",
+                  "{domain}.{selector}.private"]}
 
 
-def kcfg(spec, ops, algos=("rsa2048", "ed25519"), devs=(), gen=False, tail=""):
-    return KCFG % dict(spec=spec, ops=ops, algos=", ".join('"%s"' % a for a in algos),
+def key_data_dims(rows, thorough):
+    """walk the combinations per (naming class, number of domains) so that every spelling meets every name set"""
+    nth = {}
+    for b in rows:
+        c = b["cfg"]
+        k = (c["tpl"], len(c["doms"]))
+        i = nth[k] = nth.get(k, -1) + 1
+        sp = SPELL[c["tpl"]]
+        nsets = 3 if thorough else 2
+        c["spell"] = sp[i % len(sp)]
+        c["names"] = (i + i // len(sp)) % nsets      # diagonal walk: the next pass pairs a spelling with the next name set
+        c["sel2"] = "{selector}" in c["spell"]
+
+
+def kcfg(spec, ops, algos=("rsa2048", "ed25519"), devs=(), gen=False, tail="", wide=True):
+    return KCFG % dict(wide="TRUE" if wide else "FALSE", spec=spec, ops=ops, algos=", ".join('"%s"' % a for a in algos),
                        devs=", ".join('"%s"' % d for d in devs), gen="TRUE" if gen else "FALSE", tail=tail)
 
 
@@ -58,7 +82,7 @@ def key_shape(b, fine):
             rots.update(st["rot"])
         elif st["e"] == "Sign":
             signs.add((st["sender"] if fine else "", st["signed"], st["g"] > 1))
-    return (tuple(b["cfg"]["doms"]), b["cfg"]["sub"], tuple(sorted(rots)), tuple(sorted(signs)))
+    return (tuple(b["cfg"]["doms"]), b["cfg"]["sub"], b["cfg"]["tpl"], tuple(sorted(rots)), tuple(sorted(signs)))
 
 
 def run_keys(ctx, replay_row=None):
@@ -72,15 +96,18 @@ def run_keys(ctx, replay_row=None):
         ctx.cov["states"] = ctx.cov.get("states", 0) + r["distinct"]
         ctx.cov["transitions"] = ctx.cov.get("transitions", 0) + r["generated"]
         ctx.log("TLC exhaustive (keys): %d states, %.1fs" % (r["distinct"], r["wall"]))
-        for dev in KDEVS:
-            ra = ctx.tlc("DkimKeys", None, name="keys-asis-" + dev, workers=2, timeout=300,
-                         cfg_text=kcfg("Spec", 4, devs=[dev],
-                                       tail="INVARIANTS SignedVerifies LoadedIsPublished\n"))
-            if ra["invariant"] not in ("SignedVerifies", "LoadedIsPublished"):
-                raise vlib.Infra("key deviation %s is not caught by the model" % dev)
+        from concurrent.futures import ThreadPoolExecutor
+        with ThreadPoolExecutor(max_workers=2) as ex:
+            futs = [(dev, ex.submit(ctx.tlc, "DkimKeys", None, name="keys-asis-" + dev, workers=2, timeout=300,
+                                    cfg_text=kcfg("Spec", 4, devs=[dev],
+                                                  tail="INVARIANTS SignedVerifies LoadedIsPublished\n")))
+                    for dev in KDEVS]
+            for dev, fut in futs:
+                if fut.result()["invariant"] not in ("SignedVerifies", "LoadedIsPublished"):
+                    raise vlib.Infra("key deviation %s is not caught by the model" % dev)
         ctx.cov["deviations_caught_by_model"] = ctx.cov.get("deviations_caught_by_model", []) + KDEVS
         g = ctx.tlc("DkimKeys", None, name="keys-gen", workers=1, timeout=900,
-                    cfg_text=kcfg("GenSpec", 5, gen=True))
+                    cfg_text=kcfg("GenSpec", 5, gen=True, wide=thorough))
         behs = [val for tag, val in g["printed"] if tag == "BEH"]
         if not g["ok"] or not behs:
             raise vlib.Infra("key history generation failed: %s %s" % (g["invariant"], g["error"]))
@@ -101,6 +128,19 @@ def run_keys(ctx, replay_row=None):
             rows = vlib.sample(rng, rot, cap * 3 // 4)
             rows += vlib.sample(rng, rest, cap - len(rows))
         rows = [dict(b, id=900000 + i + 1) for i, b in enumerate(rows)]
+        if not thorough:
+            # the quick generation ran with Wide = FALSE (naming class "key" only, see DkimKeys.tla): the design
+            # is the same for both classes, every second sampled history is replayed under a "bare" template;
+            # DkimKeysTrace.tla validates it against the model with the class the harness logged
+            for i, b in enumerate(rows):
+                b["cfg"] = dict(b["cfg"], tpl="bare" if i % 2 else "key")
+        key_data_dims(rows, thorough)
+        comb = {}
+        for b in rows:
+            k = "%s names=%d domains=%d%s" % (b["cfg"]["spell"], b["cfg"]["names"], len(b["cfg"]["doms"]),
+                                             " +second selector" if b["cfg"]["sel2"] else "")
+            comb[k] = comb.get(k, 0) + 1
+        ctx.cov["key_naming_combinations"] = comb
         ctx.cov["key_histories_generated"] = len(behs)
         ctx.cov["key_history_strata"] = len(strata)
     else:
